@@ -108,13 +108,26 @@ pub fn replay_corpus(ctx: &Ctx, name: &str, f: impl Fn(&Ctx, &[u8]) -> Verdict) 
     let dir = std::path::PathBuf::from(crate::fw::verif_dir()).join("corpus").join(name);
     let mut files: Vec<std::path::PathBuf> = std::fs::read_dir(&dir).map(|rd| rd.filter_map(|e| e.ok()).map(|e| e.path()).filter(|p| p.is_file()).collect()).unwrap_or_default();
     files.sort();
-    for (i, p) in files.iter().enumerate() {
-        if i as u32 % ctx.workers != ctx.worker { continue; }
+    // plain files hold one input each; *.pack files hold many (u32 little-endian length + bytes, written by tools/pack_corpus.py)
+    let mut inputs: Vec<(String, Vec<u8>)> = vec![];
+    for p in files.iter() {
         let bytes = match std::fs::read(p) { Ok(b) => b, Err(_) => continue };
-        ctx.inflight(&serde_json::json!({"corpus_file": p.to_string_lossy(), "bytes": crate::fw::util::Bytes(bytes.clone())}));
-        let v = f(ctx, &bytes);
+        if p.extension().map(|e| e == "pack").unwrap_or(false) {
+            let (mut i, mut k) = (0usize, 0usize);
+            while i + 4 <= bytes.len() {
+                let n = u32::from_le_bytes([bytes[i], bytes[i + 1], bytes[i + 2], bytes[i + 3]]) as usize;
+                if i + 4 + n > bytes.len() { break; }
+                inputs.push((format!("{}#{}", p.to_string_lossy(), k), bytes[i + 4..i + 4 + n].to_vec()));
+                i += 4 + n; k += 1;
+            }
+        } else { inputs.push((p.to_string_lossy().to_string(), bytes)); }
+    }
+    for (i, (label, bytes)) in inputs.iter().enumerate() {
+        if i as u32 % ctx.workers != ctx.worker { continue; }
+        ctx.inflight(&serde_json::json!({"corpus_file": label, "bytes": crate::fw::util::Bytes(bytes.clone())}));
+        let v = f(ctx, bytes);
         let b2 = bytes.clone();
-        ctx.count(&v, crate::fw::hash64(&bytes), || serde_json::json!({"corpus_file": p.to_string_lossy(), "bytes": crate::fw::util::Bytes(b2)}));
+        ctx.count(&v, crate::fw::hash64(bytes), || serde_json::json!({"corpus_file": label, "bytes": crate::fw::util::Bytes(b2)}));
     }
     ctx.clear_inflight();
 }
